@@ -1,3 +1,6 @@
 import Dm.Props.C03
 #print axioms Dm.Props.C03.text_yields_no_placeholders
 #print axioms Dm.Props.C03.implicit_counter_is_std
+#print axioms Dm.Props.C03.formats_agree_nospec_partial
+#print axioms Dm.Props.C03.placeholders_agree_nospec_partial
+#print axioms Dm.Props.C03.asciiSane
